@@ -99,7 +99,7 @@ def run(rep):
     ]
     vlib.prelude(rep)
     rng = rep.rng
-    n = 1500 if rep.tier == 'quick' else 40000
+    n = 4000 if rep.tier == 'quick' else 40000
     depth = 5 if rep.tier == 'quick' else 6
     gen = G.Gen(rng, max_depth=depth, allow_tailstrict=False)
     progs = [gen.program() for _ in range(n)]
